@@ -8,6 +8,7 @@ Property theorems only.
 import ElysModel.Gen.Arith.calcTakeAmount
 import ElysModel.Gen.Arith.calcReturnAmount
 import ElysModel.Gen.Arith.borrowInterestRateComputation
+import ElysModel.Gen.Arith.calcFundingRate
 import ElysModel.Gen.Arith.Table
 import ElysModel.Lemmas.GenTie
 import ElysModel.Lemmas.AmmBase
@@ -78,6 +79,44 @@ theorem borrow_rate_in_band (found : Bool) (mx mn inc dec hgf prev long : Int) (
   obtain ⟨t4, _, h⟩ := bind_ok h
   obtain ⟨ir, _, h⟩ := bind_ok h
   exact clamp_in ir mn mx r hmm h
+
+/-- the funding rate as the source computes it now (x/perpetual/types/calc_funding_rate.go `CalcFundingRate`) stays inside the
+governance band [min, max] whenever the base rate does — for every pair of open interests, balanced, one-sided or empty: the
+rate `CalcTakeAmount` is applied with is bounded by parameters, not by the imbalance. -/
+theorem funding_rate_in_band (long short base mx mn r : Int) (hmm : mn ≤ mx) (hb : mn ≤ base ∧ base ≤ mx)
+    (h : Gen.Arith.calcFundingRate long short base mx mn = .ok r) : mn ≤ r ∧ r ≤ mx := by
+  unfold Gen.Arith.calcFundingRate at h
+  by_cases h1 : long > short
+  · by_cases h2 : short = 0
+    · subst h2; simp only [h1, if_true, pure, Except.pure, Except.ok.injEq] at h; omega
+    · simp only [h1, h2, if_true, if_false] at h
+      obtain ⟨t1, _, h⟩ := bind_ok h
+      obtain ⟨t2, _, h⟩ := bind_ok h
+      simp only [pure, Except.pure, Except.ok.injEq] at h
+      subst h
+      split <;> split <;> omega
+  · by_cases h3 : short > long
+    · by_cases h4 : long = 0
+      · subst h4; simp only [h1, h3, if_true, if_false, pure, Except.pure, Except.ok.injEq] at h; omega
+      · simp only [h1, h3, h4, if_true, if_false] at h
+        obtain ⟨t3, _, h⟩ := bind_ok h
+        obtain ⟨t4, _, h⟩ := bind_ok h
+        simp only [pure, Except.pure, Except.ok.injEq] at h
+        subst h
+        split <;> split <;> omega
+    · simp [h1, h3, pure, Except.pure] at h; omega
+
+/-- balanced open interest pays the base rate; a one-sided market pays the maximum. -/
+theorem funding_rate_cases (a base mx mn : Int) (ha : 0 < a) :
+    Gen.Arith.calcFundingRate a a base mx mn = .ok base ∧ Gen.Arith.calcFundingRate a 0 base mx mn = .ok mx ∧
+    Gen.Arith.calcFundingRate 0 a base mx mn = .ok mx := by
+  unfold Gen.Arith.calcFundingRate
+  have h1 : ¬ a > a := by omega
+  have h2 : ¬ (0 : Int) > a := by omega
+  simp [h1, h2, ha, pure, Except.pure]
+
+/-- non-vacuity: longs 300, shorts 100, base 0.03 %, band [−1 %, 1 %]: three times the base rate. -/
+example : Gen.Arith.calcFundingRate 300 100 300000000000000 10000000000000000 (-10000000000000000) = .ok 900000000000000 := by rfl
 
 /-- what the two keeper functions read besides their arguments. -/
 theorem gen_free_calcReturnAmount : Gen.Arith.freeOf "calcReturnAmount" = ["#1.Custody"] := by decide
